@@ -32,6 +32,31 @@ package block
 //@   trusted
 //@   modifies b.VerificationTickets
 
+// Tickets that arrive in a notarization message (C31). UnknownTickets hands back each verifier at most
+// once - MergeVerificationTickets takes a received list as it is when the block holds no ticket yet, so
+// this is what keeps one verifier from being counted twice on that path.
+// The union itself (the function literal in MergeVerificationTickets) keeps the verifiers distinct.
+//@ spec distinctVerifiers(s []*VerificationTicket) bool = forall i in 0..len(s) :: (forall j in i+1..len(s) :: s[i].VerifierID != s[j].VerifierID)
+//@ func (*Block).UnknownTickets
+//@   prop C31
+//@   ensures[each-verifier-once] distinctVerifiers(result)
+//@   loop 1 header "for _, t := range b.VerificationTickets"
+//@   loop 1 invariant ticketsMap != nil && (forall k in 0..$idx+1 :: b.VerificationTickets[k].VerifierID in ticketsMap)
+//@   loop 2 header "for _, t := range vts"
+//@   loop 2 invariant ticketsMap != nil && (forall k in 0..len(b.VerificationTickets) :: b.VerificationTickets[k].VerifierID in ticketsMap)
+//@   loop 2 invariant forall k in 0..len(newTickets) :: newTickets[k].VerifierID in ticketsMap
+//@   loop 2 invariant distinctVerifiers(newTickets)
+//@ func (*Block).MergeVerificationTickets$1
+//@   prop C31
+//@   requires distinctVerifiers(alreadyHave) && distinctVerifiers(received)
+//@   ensures[verifiers-stay-distinct] distinctVerifiers(result)
+//@   ensures[no-ticket-dropped] len(result) >= len(alreadyHave)
+//@   loop 1 header "for _, t := range alreadyHave"
+//@   loop 1 invariant alreadyHaveMap != nil && (forall k in 0..$idx+1 :: alreadyHave[k].VerifierID in alreadyHaveMap)
+//@   loop 2 header "for _, rec := range received"
+//@   loop 2 invariant alreadyHaveMap != nil && len(union) >= len(alreadyHave) && distinctVerifiers(union)
+//@   loop 2 invariant forall k in 0..len(union) :: union[k].VerifierID in alreadyHaveMap
+
 // 2^-RoundRank (float loop): trusted, reads only.
 //@ func (*Block).Weight
 //@   trusted
